@@ -59,6 +59,7 @@ func runC16(l *core.Ledger) {
 	l.Rule("C16-Y3", "decision table over 2^10 option valuations: exactly one client template per accepted method; unique call type; documented forbidden combinations rejected; documented 'Yes' combinations accepted; server streams only with correctable")
 	l.Rule("C16-Y4", "for each call type, the options that influence emitted non-comment text are a subset of the options the documentation matrix marks 'Yes' for it")
 	l.Rule("C16-Y5", "template ↔ runtime agreement: written call-data fields exist in that struct; identifiers named through `use` exist and are exported; template functions are funcMap keys")
+	l.Rule("C16-Y9", "the guard judges what will be generated: it compares the Go names of the messages (GoIdent.GoName - what the generated code declares) with the reserved identifiers, and it validates every method before it can decide that there is nothing to generate (an illegal combination may match no call type at all)")
 	l.Rule("C16-Y8", "every generated file declares what the static code uses: the static code refers to QuorumSpec without declaring it, the qspec template declares it once per element of qspecServices, so qspecServices hands out every service it is given (one unconditional append per service)")
 	l.Rule("C16-Y6", "reservedIdents ⊇ exported package-level identifiers declared by the static code ∪ {QuorumSpec}; gorumsGuard compares every top-level message name with every reserved name")
 	l.Rule("C16-Y7", "every rejecting path of validateOptions / gorumsGuard reaches log.Fatal*")
@@ -75,6 +76,7 @@ func runC16(l *core.Ledger) {
 	c16Y6(l, g)
 	c16Y7(l, g)
 	c16Y8(l, g)
+	c16Y9(l, g)
 	_ = table
 }
 
@@ -2259,4 +2261,86 @@ func c16Y8(l *core.Ledger, g *gen.Generator) {
 		}
 	}
 	l.Check(ok, "C16-Y8", "gengorums.qspecServices", fd.Pos(), "every service is handed to the qspec template", "qspecServices filters the services ("+why+"): for a file whose service does not pass the filter (for instance a service of plain rpc methods) the qspec template declares no QuorumSpec, while the static code in the same file refers to it - the plugin exits 0 and its output does not compile")
+}
+
+// c16Y9: two clauses about gorumsGuard that the loop-shape rule Y6 does not see.
+func c16Y9(l *core.Ledger, g *gen.Generator) {
+	guard := g.FuncDecl("gorumsGuard")
+	if guard == nil || guard.Body == nil {
+		l.Unknown("C16-Y9", "anchor/gorumsGuard", token.NoPos, "gorumsGuard not found")
+		return
+	}
+	info := g.Pkg.TypesInfo
+	// functions of the package that the guard calls (one level), for helpers holding the comparison
+	bodies := []*ast.BlockStmt{guard.Body}
+	ast.Inspect(guard.Body, func(n ast.Node) bool {
+		if ce, ok := n.(*ast.CallExpr); ok {
+			if id, ok := ce.Fun.(*ast.Ident); ok {
+				if fd := g.FuncDecl(id.Name); fd != nil && fd.Body != nil && fd != guard {
+					bodies = append(bodies, fd.Body)
+				}
+			}
+		}
+		return true
+	})
+	isMessage := func(e ast.Expr) bool {
+		t := info.TypeOf(e)
+		return t != nil && isNamed(t, "google.golang.org/protobuf/compiler/protogen", "Message")
+	}
+	goName, protoName := token.NoPos, token.NoPos
+	for _, b := range bodies {
+		ast.Inspect(b, func(n ast.Node) bool {
+			switch x := n.(type) {
+			case *ast.SelectorExpr:
+				// msg.GoIdent.GoName
+				if x.Sel.Name == "GoName" {
+					if in, ok := x.X.(*ast.SelectorExpr); ok && in.Sel.Name == "GoIdent" && isMessage(in.X) {
+						goName = x.Pos()
+					}
+				}
+			case *ast.CallExpr:
+				// msg.Desc.Name()
+				if sel, ok := x.Fun.(*ast.SelectorExpr); ok && sel.Sel.Name == "Name" {
+					if in, ok := sel.X.(*ast.SelectorExpr); ok && in.Sel.Name == "Desc" && isMessage(in.X) {
+						protoName = x.Pos()
+					}
+				}
+			}
+			return true
+		})
+	}
+	switch {
+	case goName.IsValid():
+		l.OK("C16-Y9", "gengorums.gorumsGuard/go-name", goName, "compares GoIdent.GoName")
+	case protoName.IsValid():
+		l.Bad("C16-Y9", "gengorums.gorumsGuard/go-name", protoName, "the guard compares the proto spelling of a message name (Desc.Name()) with the reserved identifiers, but the generated code declares its Go name: messages named node, manager, configuration, quorum_spec, new_manager pass the guard and the emitted file declares Node, Manager, ... twice - exit 0 and output that does not compile")
+	default:
+		l.Unknown("C16-Y9", "gengorums.gorumsGuard/go-name", guard.Pos(), "cannot tell which name of a message the guard looks at")
+	}
+	// validation before the nothing-to-do decision
+	var has, val token.Pos
+	ast.Inspect(guard.Body, func(n ast.Node) bool {
+		ce, ok := n.(*ast.CallExpr)
+		if !ok {
+			return true
+		}
+		if f := resolvedCall(info, ce); f != nil {
+			switch f.Name() {
+			case "hasGorumsMethods":
+				if !has.IsValid() {
+					has = ce.Pos()
+				}
+			case "validateOptions":
+				if !val.IsValid() {
+					val = ce.Pos()
+				}
+			}
+		}
+		return true
+	})
+	if !has.IsValid() {
+		l.OK("C16-Y9", "gengorums.gorumsGuard/validate-first", guard.Pos(), "the guard does not decide by hasGorumsMethods")
+		return
+	}
+	l.Check(val.IsValid() && val < has, "C16-Y9", "gengorums.gorumsGuard/validate-first", has, "every method is validated before the nothing-to-do decision", "the guard decides that there is nothing to generate (no method matches a call type) before any method was validated: a service whose methods all carry an illegal combination that matches no call type (async without quorumcall) is skipped silently - exit 0, no output, no diagnostic - although the same method is rejected next to one well-formed method")
 }
